@@ -5,16 +5,20 @@ import (
 	"fmt"
 	"github.com/evstack/ev-node/types"
 	"os"
+	"sync/atomic"
 	"time"
 )
 
 // Action is one step of a delivery schedule to a full node.
 type Action struct {
-	Kind      string   `json:"k"`            // ch-h | ch-d | da | p2p-h | p2p-d | restart | crash-restart
-	I         int      `json:"i,omitempty"`  // block index (ch-*), or "up to index" (p2p-*)
-	DA        []Item   `json:"da,omitempty"` // blobs placed at the next DA height
-	Junk      [][]byte `json:"-"`            // third-party blobs placed with them
-	JunkFirst bool     `json:"-"`            // third-party blobs come before the genuine ones within the DA height
+	Kind       string   `json:"k"`                      // ch-h | ch-d | da | p2p-h | p2p-d | restart | crash-restart
+	I          int      `json:"i,omitempty"`            // block index (ch-*), or "up to index" (p2p-*)
+	DA         []Item   `json:"da,omitempty"`           // blobs placed at the next DA height
+	Junk       [][]byte `json:"-"`                      // third-party blobs placed with them
+	JunkFirst  bool     `json:"-"`                      // third-party blobs come before the genuine ones within the DA height
+	StopAtExec int      `json:"stop_at_exec,omitempty"` // ask the node to stop right after the n-th block application from now persisted its state (kind "da", NoBarrier)
+	More       [][]Item `json:"more,omitempty"`         // further DA heights filled in the same action (kind "da")
+	NoBarrier  bool     `json:"nb,omitempty"`           // do not wait for the sync loop after this action (events may still be queued)
 }
 
 // Item names one genuine blob: header or data of block index I.
@@ -31,6 +35,12 @@ func (a Action) String() string {
 		return fmt.Sprintf("%s<=%d", a.Kind, a.I)
 	case "da":
 		s := "da["
+		if a.NoBarrier {
+			s = "da!["
+			if a.StopAtExec > 0 {
+				s = fmt.Sprintf("da!stop@apply%d[", a.StopAtExec)
+			}
+		}
 		for _, it := range a.DA {
 			if it.D {
 				s += fmt.Sprintf("d%d ", it.I)
@@ -38,7 +48,19 @@ func (a Action) String() string {
 				s += fmt.Sprintf("h%d ", it.I)
 			}
 		}
-		return s + "]"
+		s += "]"
+		for _, more := range a.More {
+			s += "+["
+			for _, it := range more {
+				if it.D {
+					s += fmt.Sprintf("d%d ", it.I)
+				} else {
+					s += fmt.Sprintf("h%d ", it.I)
+				}
+			}
+			s += "]"
+		}
+		return s
 	}
 	return a.Kind
 }
@@ -60,14 +82,34 @@ type FN struct {
 	daNext     uint64
 	loopNames  []string
 	Restarts   int
+	// Release is set by scenarios that stall a double; it lets the stalled calls continue.
+	Release func()
+	// slow makes every execution call take a moment, so that the sync loop lags behind the DA scan
+	slow atomic.Bool
+	// stopAfterExecs > 0: the loops' context is cancelled when that many further execution calls have started
+	stopAfterExecs atomic.Int64
 }
 
 // NewFN starts a full node for the produced chain. rootDir may be "" (no cache directory: clean restarts then lose the caches).
 func NewFN(ctx context.Context, p *Produced, rootDir string) (*FN, error) {
+	return NewFNPrepared(ctx, p, rootDir, nil)
+}
+
+// NewFNPrepared is NewFN with a hook that can arrange the doubles before the loops start.
+func NewFNPrepared(ctx context.Context, p *Produced, rootDir string, prepare func(*FN)) (*FN, error) {
 	f := &FN{Ctx: ctx, P: p, Im: NewImage(), Exec: NewExecDouble(), DA: NewDADouble(), RootDir: rootDir,
 		GotH: make([]bool, len(p.Heights)), GotD: make([]bool, len(p.Heights)), daNext: 1,
 		loopNames: []string{"sync", "retrieve", "headerStore", "dataStore", "daIncluder"}}
 	f.DA.AutoAdvance = false
+	f.Exec.Delay = func(kind string) {
+		if kind == "exec" && f.slow.Load() {
+			time.Sleep(1500 * time.Microsecond)
+		}
+
+	}
+	if prepare != nil {
+		prepare(f)
+	}
 	if err := f.start(nil); err != nil {
 		return nil, err
 	}
@@ -76,7 +118,16 @@ func NewFN(ctx context.Context, p *Produced, rootDir string) (*FN, error) {
 
 func (f *FN) start(reuse *Node) error {
 	opts := NodeOpts{Aggregator: false, InitialHeight: f.P.Spec.Initial, DABlockTime: time.Hour, BlockTime: time.Hour, RootDir: f.RootDir, DAStartHeight: 1}
-	n, err := NewNode(f.Ctx, opts, f.P.Keys, NewMemDS(f.Im), f.Exec, NewSeqDouble(), f.DA, reuse)
+	dsp := NewMemDS(f.Im)
+	dsp.OnWrite = func(rec WriteRec) {
+		// the stop request arrives right after the n-th application from now made its state durable
+		for _, k := range rec.Keys {
+			if k == "/s" && f.stopAfterExecs.Load() > 0 && f.stopAfterExecs.Add(-1) == 0 {
+				f.L.Cancel()
+			}
+		}
+	}
+	n, err := NewNode(f.Ctx, opts, f.P.Keys, dsp, f.Exec, NewSeqDouble(), f.DA, reuse)
 	if err != nil {
 		return err
 	}
@@ -106,6 +157,8 @@ func (f *FN) Restart(clean bool) error {
 		_ = os.RemoveAll(f.RootDir + "/data/cache")
 	}
 	f.Restarts++
+	f.slow.Store(false)
+	f.stopAfterExecs.Store(0)
 	old := f.N
 	return f.start(old)
 }
@@ -135,14 +188,37 @@ func (f *FN) Do(a Action) error {
 		} else {
 			blobs = append(blobs, a.Junk...)
 		}
+		if a.NoBarrier {
+			f.slow.Store(true) // the consumer lags: events pile up in the hand-off channels
+			if a.StopAtExec > 0 {
+				f.stopAfterExecs.Store(int64(a.StopAtExec))
+			}
+		}
 		h := f.daNext
 		f.daNext++
 		f.DA.Place(h, blobs...)
+		all := append([]Item{}, a.DA...)
+		for _, more := range a.More {
+			var mb [][]byte
+			for _, it := range more {
+				if it.D {
+					if b := f.P.DataBlob[it.I]; b != nil {
+						mb = append(mb, b)
+					}
+				} else {
+					mb = append(mb, f.P.HeaderBlob[it.I])
+				}
+			}
+			h = f.daNext
+			f.daNext++
+			f.DA.Place(h, mb...)
+			all = append(all, more...)
+		}
 		f.DA.SetHeight(h)
 		if err := f.L.RetrieveUntilIdle(f.DA, h+1); err != nil {
 			return err
 		}
-		for _, it := range a.DA {
+		for _, it := range all {
 			if it.D {
 				f.GotD[it.I] = true
 			} else {
@@ -172,11 +248,32 @@ func (f *FN) Do(a Action) error {
 	case "include":
 		return f.L.SignalBarrier("daIncluder", "daIncluder")
 	case "restart":
-		return f.Restart(true)
+		if err := f.Restart(true); err != nil {
+			return err
+		}
 	case "crash-restart":
-		return f.Restart(false)
+		if err := f.Restart(false); err != nil {
+			return err
+		}
 	default:
 		return fmt.Errorf("unknown action %q", a.Kind)
+	}
+	if a.NoBarrier {
+		if a.StopAtExec > 0 {
+			// the stop request is raised by the datastore hook when the n-th application persisted its state;
+			// if fewer applications happen, the node is stopped once it has handled everything
+			_ = poll(func() bool {
+				return f.stopAfterExecs.Load() <= 0 || f.L.Exited("sync") ||
+					(len(f.N.M.VerifHeaderInCh()) == 0 && len(f.N.M.VerifDataInCh()) == 0)
+			})
+			if f.stopAfterExecs.Load() > 0 && !f.L.Exited("sync") {
+				_ = f.L.SyncBarrier()
+			}
+		}
+		// the node is stopped cleanly right now, with whatever is still queued in its hand-off channels
+		if err := f.Restart(true); err != nil {
+			return err
+		}
 	}
 	return f.L.SyncBarrier()
 }
